@@ -29,7 +29,7 @@ func (c09) Gen(tier string, seed int64, emit func([]Ev)) {
 	r := rand.New(rand.NewSource(seed))
 	n := 500
 	if tier == "thorough" {
-		n = 8000
+		n = 40000
 	}
 	for i := 0; i < n; i++ {
 		var h []Ev
